@@ -19,6 +19,7 @@ LEVEL_NOTE = 'Trusted: numpy/scipy semantics. Most of the property (value-level 
 TECHNIQUE = 'static analysis: sibling agreement of scale and crop-bound expressions in rational normal form, rounding-direction recognition, dtype-guard presence'
 DESIGN_REF = 'DESIGN.md section 4 (C20)'
 EXPLANATION = 'SCALE one constant both ways with dtype guards; CROP sibling bounds; REPEAT ceil count and crop; STEREO dtype guard and layout; WAV write path.'
+EXPLANATION += (' ' + 'SCALE/operand-is-input: both PCM conversions scale their parameter as given (no rebinding other than np.asarray), so no clipping/rounding step can change one of the 65536 values.')
 TRUSTED = ['numpy and scipy.io.wavfile semantics']
 NOT_DECIDED = ['that int16 -> float32 -> int16 is the identity on all 65 536 values (float rounding + truncating astype)', 'scipy WAV encode/decode']
 ASSUMPTIONS = []
